@@ -243,8 +243,15 @@ pub fn parse_bound(v: &str) -> Option<Bound> {
     };
     let s = unquote(lit.trim())?;
     let (lo, hi) = if let Some((a, b)) = s.split_once("..") {
-        let b = b.trim_start_matches('=');
-        (if a.is_empty() { None } else { Some(a.parse().ok()?) }, if b.is_empty() { None } else { Some(b.parse().ok()?) })
+        // Rust range syntax: `a..=b` is inclusive, `a..b` excludes b, `a..` is open
+        let hi = if b.is_empty() {
+            None
+        } else if let Some(inc) = b.strip_prefix('=') {
+            Some(inc.parse::<i64>().ok()?)
+        } else {
+            Some(b.parse::<i64>().ok()? - 1)
+        };
+        (if a.is_empty() { None } else { Some(a.parse().ok()?) }, hi)
     } else {
         let v: i64 = s.parse().ok()?;
         (Some(v), Some(v))
@@ -505,7 +512,7 @@ impl Prop for C04 {
         if correct_tree(&['E', 'E']).is_some() {
             return Err("E,E must be rejected".into());
         }
-        if parse_bound("\"2..=9\",extensible") != Some(Bound { lo: Some(2), hi: Some(9), ext: true }) || parse_bound("\"-3..\"") != Some(Bound { lo: Some(-3), hi: None, ext: false }) || parse_bound("\"..=5\"") != Some(Bound { lo: None, hi: Some(5), ext: false }) || parse_bound("\"7\"") != Some(Bound { lo: Some(7), hi: Some(7), ext: false }) {
+        if parse_bound("\"2..=9\",extensible") != Some(Bound { lo: Some(2), hi: Some(9), ext: true }) || parse_bound("\"-3..\"") != Some(Bound { lo: Some(-3), hi: None, ext: false }) || parse_bound("\"..=5\"") != Some(Bound { lo: None, hi: Some(5), ext: false }) || parse_bound("\"7\"") != Some(Bound { lo: Some(7), hi: Some(7), ext: false }) || parse_bound("\"..5\"") != Some(Bound { lo: None, hi: Some(4), ext: false }) {
             return Err("parse_bound".into());
         }
         Ok(n + 8)
